@@ -474,6 +474,7 @@ VERIF_ERRS = [
     "assertion not satisfied", "unreachable", "constructed value may fail to meet its declared type invariant",
     "could not prove termination", "failed precondition", "failed this postcondition",
     "precondition not met",      # e.g. "precondition not met: index in bounds for this access"
+    "unable to prove post-condition of closure",   # a closure annotated (R-closure) with the value it must return
 ]
 
 
